@@ -206,6 +206,78 @@ pub fn mpsc_close_drain(unbounded: bool) -> Body {
     })
 }
 
+/// close() racing with sends, drained through try_recv first: `Disconnected` is final (nothing may be
+/// received after it), and every send that returned Ok is delivered to a receiver that drains the
+/// closed channel to the end
+pub fn mpsc_close_try_drain(unbounded: bool, n: usize) -> Body {
+    Arc::new(move || {
+        use mpsc::error::TryRecvError;
+        macro_rules! drain {
+            ($rx:ident, $t:ident) => {{
+                block_on(async move {
+                    $rx.close();
+                    let mut got: Vec<usize> = vec![];
+                    let mut disconnected = false;
+                    loop {
+                        match $rx.try_recv() {
+                            Ok(v) => got.push(v),
+                            Err(TryRecvError::Disconnected) => {
+                                disconnected = true;
+                                break;
+                            }
+                            Err(TryRecvError::Empty) => {
+                                // closed, but an accepted message is still on its way
+                                while let Some(v) = $rx.recv().await {
+                                    got.push(v);
+                                }
+                                break;
+                            }
+                        }
+                    }
+                    let sent: usize = $t.await.unwrap();
+                    if disconnected {
+                        let after = $rx.try_recv();
+                        assert!(matches!(after, Err(TryRecvError::Disconnected)), "try_recv reported Disconnected but later returned {:?}", after);
+                        assert!($rx.recv().await.is_none(), "recv produced a message after try_recv had reported Disconnected");
+                    }
+                    let want: Vec<usize> = (0..got.len()).collect();
+                    assert_eq!(got, want, "out of order or gap");
+                    assert_eq!(got.len(), sent, "{sent} sends returned Ok but the drained closed channel delivered {:?}", got);
+                })
+            }};
+        }
+        if unbounded {
+            let (tx, mut rx) = mpsc::unbounded_channel::<usize>();
+            let t = stokio::spawn(async move {
+                let mut sent = 0;
+                for i in 0..n {
+                    if tx.send(i).is_ok() {
+                        sent += 1;
+                    } else {
+                        break;
+                    }
+                }
+                sent
+            });
+            drain!(rx, t);
+        } else {
+            let (tx, mut rx) = mpsc::channel::<usize>(2);
+            let t = stokio::spawn(async move {
+                let mut sent = 0;
+                for i in 0..n {
+                    if tx.send(i).await.is_ok() {
+                        sent += 1;
+                    } else {
+                        break;
+                    }
+                }
+                sent
+            });
+            drain!(rx, t);
+        }
+    })
+}
+
 /// receiver dropped: senders observe closure; blocked senders are released
 pub fn mpsc_drop_receiver() -> Body {
     Arc::new(|| {
@@ -702,6 +774,10 @@ pub fn all() -> Vec<(String, Body)> {
     v.push(("mpsc-close-drain unbounded".into(), mpsc_close_drain(true)));
     v.push(("mpsc-close-drain bounded".into(), mpsc_close_drain(false)));
     v.push(("mpsc-drop-receiver".into(), mpsc_drop_receiver()));
+    for n in [1usize, 2] {
+        v.push((format!("mpsc-close-drain-first unbounded n={n}"), mpsc_close_try_drain(true, n)));
+        v.push((format!("mpsc-close-drain-first bounded n={n}"), mpsc_close_try_drain(false, n)));
+    }
     for i in 0..4 {
         v.push((format!("oneshot-{i}"), oneshot_cases(i)));
     }
